@@ -60,7 +60,7 @@ def plain_sources(files):
 
 
 def jobs(tier, seed):
-    depth = 1 if tier == "quick" else 2
+    depth = 2 if tier == "quick" else 3
     out = []
     for fam in FAMILIES:
         for start in starts(fam, tier):
